@@ -341,6 +341,8 @@ class AsyncBaseClient:
             message_dict = json.loads(message)
         except json.JSONDecodeError as exc:
             raise GraphQLClientInvalidMessageFormat(message=message) from exc
+        if not isinstance(message_dict, dict):
+            raise GraphQLClientInvalidMessageFormat(message=message)
 
         type_ = message_dict.get("type")
         payload = message_dict.get("payload", {})
@@ -354,7 +356,7 @@ class AsyncBaseClient:
             )
 
         if type_ == GraphQLTransportWSMessageType.NEXT:
-            if "data" not in payload:
+            if not isinstance(payload, dict) or "data" not in payload:
                 raise GraphQLClientInvalidMessageFormat(message=message)
             return cast(Dict[str, Any], payload["data"])
 
